@@ -582,6 +582,21 @@ func Normalise(t *Type, v V) V {
 	return v
 }
 
+// HoldsDefault reports whether the generated code cannot tell the value of a
+// field with a declared default from "unset" (IsSet compares with the default;
+// for doubles with Go's !=, under which -0 equals 0).
+func HoldsDefault(f *FieldT, v V) bool {
+	if !f.HasDef {
+		return false
+	}
+	if a, ok := v.(float64); ok {
+		if b, ok := f.Default.(float64); ok && a == b {
+			return true
+		}
+	}
+	return Equal(Normalise(f.Type, v), Normalise(f.Type, f.Default))
+}
+
 // WireForm is what an object constructed from the (completed) literal v puts
 // on the wire: a non-optional struct-typed field the literal leaves out is a
 // nil pointer in the object, and the generated Write emits a nil struct as an
@@ -657,7 +672,7 @@ func Readable(t *Type, v V) bool {
 			if !Readable(f.Type, fv) {
 				return false
 			}
-			if t.Struct.Kind == "union" && f.HasDef && Equal(Normalise(f.Type, fv), Normalise(f.Type, f.Default)) {
+			if t.Struct.Kind == "union" && f.HasDef && HoldsDefault(f, fv) {
 				return false // a member holding its declared default counts as unset: no member is set
 			}
 		}
